@@ -1,7 +1,7 @@
 #!/bin/sh
 # runs every claimed check's quick tier with the given seed; prints one line per check
 SEED="${1:-20260922}"
-cd /verif
+cd "$(dirname "$0")/.."
 for p in $(python3 -c "import json;print(' '.join(c['property_id'] for c in json.load(open('MANIFEST.json'))['checks']))"); do
   t0=$(date +%s)
   out=$(VERIF_SEED=$SEED ./check $p quick 2>&1); rc=$?
